@@ -212,6 +212,15 @@ def run(ctx):
         else:
             ctx.violation("follower sweep / long stream rejected by Trace_OptionalTags: %s at token %d" % (rec["v"], rec["l"]),
                           {"kind": "trace", "source": "window sweep", "inp": tr["inp"], "verdict": rec})
+    # 2d. schedules: one-shot sources, two live instances in lockstep, abandoned iterations
+    from .. import streams as sched
+    from html5lib.filters.optionaltags import Filter as OFilter
+    sample = [[tok.unproj_token(t) for t in st] for st in sweep[:: max(1, len(sweep) // 80)]][:80]
+    sched.check(ctx, "optional-tags filter", lambda src: OFilter(src), sample,
+                key=lambda out: [tok.proj_token(t) for t in out], case=lambda i: {"inp": [tok.proj_token(t) for t in sample[i]]})
+    from .. import optrun
+    _ps = [[tok.proj_token(t) for t in st] for st in sample]
+    optrun.check(ctx, "optionaltags", _ps, [[tok.proj_token(t) for t in real_filter([tok.unproj_token(t) for t in st])] for st in _ps])
     # 3. code -> spec
     traces, meta = [], []
     for d, tb, s in streams(ctx, 800 if ctx.quick else 15000):
